@@ -322,6 +322,17 @@ def run(ctx, R):
                 order_ok = False
     if n_pairs_bb < 1:
         raise AnchorLost("store_backtrackable_global_var: the arm that replaces a live value (trail + overwrite)")
+    # the non-backtrackable sibling copies its value out of the heap: it must copy the VALUE (dereferenced), not the
+    # argument register's cell, which can be a reference to a bound cell of the caller's environment that the copier
+    # takes for a fresh variable
+    sg = F.find_impl("Machine", None, "store_global_var")
+    sgb = F.hir(sg)["body"]
+    raw = [x["ln"] for x in walk(sgb) if x["k"] == "Let" and "init" in x and x["init"].get("k") == "Index" and any(y.get("k") == "Field" and y.get("name") == "registers" for y in walk(x["init"]))
+           and (x["init"].get("idx") or x["init"].get("index") or {}).get("lit", {}).get("int") == "2"]
+    der = any(x["k"] == "MethodCall" and x["name"] == "deref_register" for x in walk(sgb))
+    R.ob("C11:bb_put:value-read-dereferenced", not raw and der,
+         "store_global_var copies registers[2] as it is (line %s): a value that reaches bb_put/2 through a permanent variable of the caller is a reference to a stack cell, "
+         "and the stored copy is an unbound variable (fresh(V) :- bb_get(ctr,V0), V is V0+1, bb_put(ctr,V). called from d(H) :- fresh(V), H = p(V). leaves ctr unbound)" % raw, F.where(sg))
     R.ob("C11:bb_b_put:old-value-trailed-before-overwrite", order_ok,
          "store_backtrackable_global_var overwrites the stored value before it builds the BlackboardOffset trail entry from it: the entry then records the NEW value and "
          "backtracking restores the key to what it was supposed to undo (bb_b_put(k, outer), ( bb_b_put(k, inner), fail ; bb_get(k, V) ) gives V = inner)", F.where(sb))
